@@ -59,9 +59,14 @@ OPS = {
     "serialize-derived": ("serialize", "box-derived", "native", False),
     "serialize-wild": ("serialize", "wild", "lxml", True),
     "encode-derived": ("encode", "box-derived", False),
+    "serialize-mix": ("serialize", "mix", "native", False),
+    "serialize-mix-lxml": ("serialize", "mix", "lxml", False),
+    "parse-mix": ("parse", "mix", "Mix", "native", False),
+    "encode-mix": ("encode", "mix", False),
 }
 LOOKUP_HEAVY = ["parse-root-lookup", "parse-xsi-type", "wildcard-strict-lookup", "decode-no-class", "parse-xsi-list-no-class", "serialize-derived", "wildcard-memo-1", "import-module"]
-GROUPS = ["xsi", "cache", "memo", "nsmap"]
+STATE_OPS = ["serialize-mix", "parse-mix", "wildcard-memo-1", "wildcard-memo-2", "encode-mix", "serialize-mix-lxml"]  # first use of the same metadata on two threads
+GROUPS = ["xsi", "cache", "memo", "nsmap", "state"]
 
 
 def expected(opname):
@@ -253,7 +258,9 @@ def run_shard(ctx):
             ctx.inconc(f"operation {n} fails when run alone: {e[1:3]}")
     heavy = LOOKUP_HEAVY[:6] if ctx.quick() else LOOKUP_HEAVY
     pairs = list(itertools.product(heavy, repeat=2)) if ctx.quick() else list(itertools.product(names, repeat=2))
-    work = [(a, b, g) for (a, b) in pairs for g in GROUPS]
+    work = [(a, b, g) for (a, b) in pairs for g in (GROUPS[:4] if ctx.quick() else GROUPS)]
+    state_ops = STATE_OPS[:4] if ctx.quick() else STATE_OPS
+    work += [(a, b, g) for (a, b) in itertools.product(state_ops, repeat=2) for g in ("state", "memo")]
     rng.shuffle(work)  # balance the expensive 'xsi' items over the shards (same order in every shard: seeded identically below)
     work = sorted(work, key=lambda w: hash_key(w, ctx.seed))
     for i, (a, b, g) in enumerate(work):
